@@ -648,6 +648,28 @@ def c08(tier, replay=None):
             longs.append((doc2, len(body2), "lf", body2))
     for doc, n, eol, body in longs:
         jobs.append((doc, len(meta))); meta.append((-1, eol, 0, ("long", n, body)))
+    # short tokens placed late: the last character of the token (its closing delimiter where it has one) is the D-th character
+    # of the file, for D around the reads (4096 bytes each) and around the moments the scan buffer (131200 units) has no room
+    # left for a whole read and is compacted while the token is still being looked at (CIF 2.0 looks one character ahead,
+    # for the colon of a table key); the padding in front is comment
+    LATE = [("text field", "\n;hello world\n;", "hello world", 1), ("triple-quoted", " \'\'\'hello world\'\'\'", "hello world", 1),
+            ("triple-double-quoted", ' """hello\nworld"""', "hello\nworld", 1), ("quoted", " 'hello world'", "hello world", 1), ("bare", " hello_world", "hello_world", 0)]
+    centres = (4096, 131072) if tier == "quick" else (4096, 8192, 126976, 131072, 131200, 135168, 262144)
+    for centre in centres:
+        for D in range(centre - 2, centre + 3):
+            for what, tok, val, q in LATE:
+                for magic in (("#\\#CIF_2.0\n",) if tier == "quick" and what in ("quoted", "bare") else ("#\\#CIF_2.0\n", "")):
+                    if not magic and what.startswith("triple"):
+                        continue
+                    fixed = magic + "data_b\n_n1" + tok
+                    padn = D - len(fixed)
+                    pad, left, k = [], padn, 0
+                    while left > 0:
+                        ln = min(left, 1500)
+                        pad.append(("#%d " % k + "c" * ln)[:ln - 1] + "\n" if ln > 1 else "\n"); left -= ln; k += 1
+                    doc = magic + "".join(pad) + "data_b\n_n1" + tok + "\n_n2 'after'\n"
+                    assert len(magic + "".join(pad) + "data_b\n_n1" + tok) == D
+                    jobs.append((doc, len(meta))); meta.append((-1, "lf", 0, ("late", D, (what + (" (CIF 1.1)" if not magic else ""), val, q))))
     nok = total = 0
     base_errs = {}
     results = parse_docs(binary, jobs, chunk=60, syntax=True)
@@ -682,14 +704,19 @@ def c08(tier, replay=None):
                 problems.append("name positions %s, with LF and no padding %s (shifted by %d lines)" % (names_of(po)[:3], nref[:3], lines))
             label = "%s %s" % (o["ctx"], "+".join("%s/%s/%s" % (s["v"], s["p"], s["s"]) for s in o["slots"]))
         else:
-            _, n, body = what
-            exp = {"b": {"items": {"_n1": {"k": "char", "t": body, "q": 1}, "_n2": {"k": "char", "t": "after", "q": 1}}, "loops": [], "frames": {}}}
-            if got != exp:
+            kind_, n, body = what
+            late = None
+            if kind_ == "late":
+                late, body, q_ = body
+            exp = {"b": {"items": {"_n1": {"k": "char", "t": body, "q": 1 if late is None else q_}, "_n2": {"k": "char", "t": "after", "q": 1}}, "loops": [], "frames": {}}}
+            if late is not None and got != exp:
+                problems.append("%s ending at character %d of the file read as %s, not %s" % (late, n, json.dumps(((got or {}).get("b", {}).get("items", {}) or {}).get("_n1"))[:120], json.dumps(exp["b"]["items"]["_n1"])))
+            elif got != exp:
                 t = ((got or {}).get("b", {}).get("items", {}).get("_n1") or {}).get("t")
                 problems.append("text field of %d characters read back with %s characters%s" % (n, len(t) if isinstance(t, str) else t, "" if t is None or len(t) != len(body) else " (content differs)"))
             if errs:
                 problems.append("errors %s" % errs[:3])
-            label = "long text field %d" % n
+            label = ("long text field %d" % n) if late is None else "late token"
         if leak:
             problems.append("memory leaked (LeakSanitizer)")
         if problems:
